@@ -62,7 +62,13 @@ def cases(tier, seed):
         h12 = dt.hour % 12 or 12
         add('$fromMillis(%d, "[h]:[m01] [P]") = "%d:%02d %s"' % (ms, h12, dt.minute, 'am' if dt.hour < 12 else 'pm'), None, ('law', 'law-total', 'hour12'))
         tz = rng.choice(offsets[1:9] + offsets[-8:])
-        add('$toMillis($fromMillis(%d, (), "%s")) = %d' % (ms, tz, ms), None, ('law', 'law-total', 'inverse'))
+        off = (1 if tz[0] == '+' else -1) * (int(tz[1:3]) * 60 + int(tz[3:5]))
+        try:
+            local_year = (dt + datetime.timedelta(minutes=off)).year
+        except OverflowError:
+            local_year = 0
+        if 1000 <= local_year <= 9999:    # the rendered local date must itself lie in years 1000..9999
+            add('$toMillis($fromMillis(%d, (), "%s")) = %d' % (ms, tz, ms), None, ('law', 'law-total', 'inverse'))
         add('$toMillis($fromMillis(%d)) = %d' % (ms, ms), None, ('law', 'law-total', 'inverse'))
     # 12-hour clock at every hour
     for h in range(24):
